@@ -2,6 +2,8 @@ package props
 
 import (
 	"fmt"
+	"go/token"
+	"go/types"
 	"strings"
 
 	"golang.org/x/tools/go/ssa"
@@ -15,7 +17,7 @@ func init() {
 		ID:      "C10",
 		Modules: []string{"v2"},
 		Explanation: "Static totality clauses for the v2 API: (R10.1) every first/last/constant-position index or slice expression in v2 and v2/assets (NonEmpty obligations) is discharged by a dominating length guard, by construction, or by an audited provenance rule; " +
-			"(R10.2) every explicit panic and every regexp.MustCompile reachable from Match/MatchFrom/Normalize/AddContent is audited (MustCompile only on constants); (R10.3) every cycle of the tokenizer's read loop passes through the reader call and the end-of-input branch leaves the loop; (R10.4) the quadratic word diff is never run with go-diff's deadline switched off. " +
+			"(R10.2) every explicit panic and every regexp.MustCompile reachable from Match/MatchFrom/Normalize/AddContent is audited (MustCompile only on constants); (R10.3) every cycle of the tokenizer's read loop passes through the reader call and the end-of-input branch leaves the loop; (R10.4) the quadratic word diff is never run with go-diff's deadline switched off; (R10.5) every integer division by a run-time value is dominated by a test that excludes a zero divisor. " +
 			"Decides these structural necessary conditions for all inputs; does not decide index arithmetic with non-constant indices nor termination of the numeric loops.",
 		Run: runC10,
 	})
@@ -58,6 +60,11 @@ func runC10(c *Ctx) {
 		}
 	}
 	c.R.RequireMin("R10.1", "NonEmpty obligations in v2 and v2/assets", len(obls), 8)
+
+	// R10.5 integer divisions
+	checkIntDivisions(c, p, fns)
+	// R01.2 (shared): the run detector uses the clamped q of the source search set (loop bounds depend on it)
+	checkRunDetectorQ(c, p)
 
 	// R10.2 panics and MustCompile reachable from the four APIs
 	reach := map[*ssa.Function]bool{}
@@ -230,5 +237,69 @@ func checkReadLoopProgress(c *Ctx, p *core.Prog) {
 		}
 		c.R.Check(ok2, "R10.3", "tokenizeStream: every iteration of the rune loop decodes (and consumes) a rune", p.Pos(call.Pos()),
 			"the DecodeRune call dominates every back edge of the inner loop", "an iteration of the rune loop can repeat without decoding")
+	}
+}
+
+// checkIntDivisions: R10.5. An integer division or remainder by a run-time value panics when the divisor is
+// zero: each such operation must be dominated by a test that excludes zero (d != 0, d > 0, d >= k>0, len guard).
+func checkIntDivisions(c *Ctx, p *core.Prog, fns []*ssa.Function) {
+	n := 0
+	for _, fn := range fns {
+		for _, b := range fn.Blocks {
+			for _, in := range b.Instrs {
+				bo, ok := in.(*ssa.BinOp)
+				if !ok || (bo.Op != token.QUO && bo.Op != token.REM) {
+					continue
+				}
+				bt, ok := bo.Type().Underlying().(*types.Basic)
+				if !ok || bt.Info()&types.IsInteger == 0 {
+					continue
+				}
+				if _, isConst := bo.Y.(*ssa.Const); isConst {
+					continue
+				}
+				n++
+				nonZero := false
+				dAP := core.AP(bo.Y)
+				for _, f := range core.FactsAtInstr(bo) {
+					cmp, ok := f.AsCmp()
+					if !ok {
+						continue
+					}
+					x, y, op := cmp.X, cmp.Y, cmp.Op
+					if core.AP(y) == dAP && y != nil {
+						// flip so that the divisor is on the left
+						x, y = y, x
+						switch op {
+						case token.LSS:
+							op = token.GTR
+						case token.GTR:
+							op = token.LSS
+						case token.LEQ:
+							op = token.GEQ
+						case token.GEQ:
+							op = token.LEQ
+						}
+					}
+					if core.AP(x) != dAP {
+						continue
+					}
+					k, isK := core.ConstInt(y)
+					if !isK {
+						continue
+					}
+					switch {
+					case op == token.NEQ && k == 0, op == token.GTR && k >= 0, op == token.GEQ && k >= 1:
+						nonZero = true
+					}
+				}
+				key := core.ShortFn(fn) + ": integer " + bo.Op.String() + " by " + eng.Describe(bo.Y)
+				c.R.Check(nonZero, "R10.5", key+" is guarded against a zero divisor", p.Pos(bo.Pos()), "a dominating test excludes zero", "integer division by a run-time value with no dominating test that it is non-zero: an empty corpus document or input makes the API panic (integer divide by zero)")
+			}
+		}
+	}
+	c.R.Count("R10.5:integer divisions by run-time values", n)
+	if n == 0 {
+		c.R.OK("R10.5", "no integer division by a run-time value in v2 and v2/assets", "-", "nothing to guard")
 	}
 }
